@@ -269,8 +269,20 @@ def check(run, model, tier):
         item = item[0]
         loops = [hd for hd in gr.loop_heads() if hd.kind == 'for']
         ok_loop = False
+        def _empty(d):
+            return (isinstance(d, (ast.Tuple, ast.List)) and not d.elts) or (isinstance(d, ast.Call) and norm(d.func) in ('tuple', 'list', 'set', 'frozenset') and not d.args)
+        loop_its = []
         for hd in loops:
-            it = hd.stmt.iter
+            it0 = hd.stmt.iter
+            cand = [it0]
+            if isinstance(it0, ast.Name):
+                ds = rdefs.get(it0.id, [])
+                if ds and all(not isinstance(d, tuple) for d in ds) and any(not _empty(d) for d in ds):
+                    # a local bound to the subscribers (or to nothing when nobody subscribed)
+                    cand = [d for d in ds if not _empty(d)]
+            for it in cand:
+                loop_its.append((hd, it))
+        for hd, it in loop_its:
             # registry[<event>.signal_name]
             if isinstance(it, ast.Subscript) and isinstance(it.value, ast.Name) and it.value.id == rp:
                 key = it.slice
